@@ -99,6 +99,11 @@ def cli_vs_api(ctx, flags, src_text, mode='stdout'):
         elif mode == 'stdin':
             r = clirun.run_cli(['-'] + list(flags), d, stdin=src)
             got = r['stdout']
+        elif mode == 'stdin-output':
+            r = clirun.run_cli(['-', '--output', 'o.py'] + list(flags), d, stdin=src)
+            got = clirun.snapshot(d).get('o.py')
+            if r['stdout']:
+                got = (got or b'') + b'<<also on stdout>>' + r['stdout']
         elif mode == 'output':
             r = clirun.run_cli(['m.py', '--output', 'o.py'] + list(flags), d)
             got = clirun.snapshot(d).get('o.py')
@@ -106,13 +111,13 @@ def cli_vs_api(ctx, flags, src_text, mode='stdout'):
             r = clirun.run_cli(['--in-place', 'm.py'] + list(flags), d)
             got = clirun.snapshot(d).get('m.py')
     if cc.invalid_flags(flags):
-        if r['exit'] == 0 or (mode in ('stdout', 'stdin') and got) or (mode == 'output' and got is not None) or (
+        if r['exit'] == 0 or (mode in ('stdout', 'stdin') and got) or (mode in ('output', 'stdin-output') and got is not None) or (
                 mode == 'inplace' and got != src):
             return {'input': {'flags': list(flags), 'source': src_text, 'mode': mode},
                     'what': 'invalid flag combination not rejected before writing', 'observed': {'exit': r['exit']},
                     'found_by': 'enumeration', 'oracle': 'cli_vs_api'}
         return None
-    filename = 'stdin' if mode == 'stdin' else 'm.py'
+    filename = 'stdin' if mode in ('stdin', 'stdin-output') else 'm.py'
     try:
         api = python_minifier.minify(src, filename=filename, preserve_locals=[], preserve_globals=[],
                                      **cc.documented_kwargs(flags)).encode('utf-8')
@@ -133,7 +138,7 @@ def cli_vs_api(ctx, flags, src_text, mode='stdout'):
 
 
 def oracle_cli_vs_api(ctx, subsets, per_subset_sources):
-    modes = ['stdout', 'stdin', 'output', 'inplace']
+    modes = ['stdout', 'stdin', 'output', 'inplace', 'stdin-output']
     n = 0
     for i, flags in enumerate(subsets):
         if ctx.time_left() < 20:
@@ -141,7 +146,7 @@ def oracle_cli_vs_api(ctx, subsets, per_subset_sources):
             break
         for j in range(per_subset_sources):
             src = SOURCES[(i + j) % len(SOURCES)]
-            mode = modes[(i + j) % 4]
+            mode = modes[(i + j) % len(modes)]
             v = cli_vs_api(ctx, flags, src, mode)
             n += 1
             ctx.count()
@@ -153,7 +158,27 @@ def oracle_cli_vs_api(ctx, subsets, per_subset_sources):
     ctx.stage('cli_vs_api', runs=n)
 
 
+def boundary_matrix(ctx):
+    """every source (they include the size-rule boundary cases) x every output mode, without flags; and the invalid flag
+    pair in both orders with other flags around it"""
+    for si, src in enumerate(SOURCES):
+        for mode in ['stdout', 'stdin', 'output', 'inplace', 'stdin-output']:
+            v = cli_vs_api(ctx, (), src, mode)
+            ctx.count()
+            ctx.mark_nontrivial('bm:%d:%s' % (si, mode))
+            if v:
+                ctx.add_violation(v)
+    bad = ['--remove-class-attribute-annotations', '--no-remove-annotations']
+    for order in (bad, bad[::-1], [bad[0], '--no-hoist-literals', bad[1]], [bad[1], '--rename-globals', bad[0]], ['--no-remove-pass'] + bad[::-1]):
+        for mode in ['stdout', 'output', 'inplace', 'stdin']:
+            v = cli_vs_api(ctx, tuple(order), SOURCES[0], mode)
+            ctx.count()
+            if v:
+                ctx.add_violation(v)
+
+
 def run(ctx):
+    boundary_matrix(ctx)
     subsets, exhaustive = cc.flag_subsets(ctx, ctx.scale(60, 600))
     ctx.exhaustive['flag_subsets_size_le_2'] = exhaustive
     d1 = cc.kw_correspondence(ctx, subsets)
